@@ -399,6 +399,102 @@ def ev_list(evs):
     return "[" + "; ".join(m[e] if isinstance(e, str) else f"Call {SNAPSHOT_METHODS.index(e[1])}" for e in evs) + "]"
 
 
+
+# ---------------------------------------------------------------------------
+# C19: nutree/fs.py  (additive block; fail-closed like the rest)
+# ---------------------------------------------------------------------------
+def fs_facts(fs):
+    """Keys written by FileSystemTree.serialize_mapper in its two branches (with the attribute of `inst`
+    or the constant stored under each key), keys read by deserialize_mapper (test key, constructor
+    arguments), and the sort keys of the two `sorted(...)` calls in load_tree_from_fs."""
+    out = []
+    cls = class_def(fs, "FileSystemTree")
+
+    def src(node):
+        if isinstance(node, ast.Attribute) and isinstance(node.value, ast.Name) and node.value.id == "inst":
+            return node.attr
+        if isinstance(node, ast.Constant) and node.value is True:
+            return "True"
+        raise Unsupported(f"serialize_mapper: value at line {node.lineno} is neither inst.<attr> nor True")
+
+    def update_dict(stmts, what):
+        if len(stmts) != 1 or not (isinstance(stmts[0], ast.Expr) and isinstance(stmts[0].value, ast.Call)):
+            raise Unsupported(f"serialize_mapper: {what} branch is not a single data.update(...) call")
+        call = stmts[0].value
+        if not (isinstance(call.func, ast.Attribute) and call.func.attr == "update" and isinstance(call.func.value, ast.Name)
+                and call.func.value.id == "data" and len(call.args) == 1 and isinstance(call.args[0], ast.Dict) and not call.keywords):
+            raise Unsupported(f"serialize_mapper: {what} branch is not data.update({{...}})")
+        d = call.args[0]
+        return [(const_str(k), src(v)) for k, v in zip(d.keys, d.values)]
+
+    ser = func_def(cls, "serialize_mapper")
+    body = [n for n in ser.body if not (isinstance(n, ast.Expr) and isinstance(n.value, ast.Constant))]
+    if not (len(body) == 3 and isinstance(body[0], ast.Assign) and isinstance(body[1], ast.If) and isinstance(body[2], ast.Return)):
+        raise Unsupported("serialize_mapper: expected `inst = node.data; if inst.is_dir: ... else: ...; return data`")
+    a = body[0]
+    if not (isinstance(a.targets[0], ast.Name) and a.targets[0].id == "inst" and isinstance(a.value, ast.Attribute)
+            and a.value.attr == "data" and isinstance(a.value.value, ast.Name) and a.value.value.id == "node"):
+        raise Unsupported("serialize_mapper: inst is not node.data")
+    t = body[1].test
+    if not (isinstance(t, ast.Attribute) and t.attr == "is_dir" and isinstance(t.value, ast.Name) and t.value.id == "inst"):
+        raise Unsupported("serialize_mapper: branch test is not inst.is_dir")
+    if not (isinstance(body[2].value, ast.Name) and body[2].value.id == "data"):
+        raise Unsupported("serialize_mapper: does not return data")
+    kv = lambda rows: "[" + "; ".join(f"({text(a)}, {text(b)})" for a, b in rows) + "]"  # noqa: E731
+    out.append(f"Definition FS_SER_DIR : list (list Z * list Z) := {kv(update_dict(body[1].body, 'is_dir'))}.")
+    out.append(f"Definition FS_SER_FILE : list (list Z * list Z) := {kv(update_dict(body[1].orelse, 'file'))}.")
+
+    des = func_def(cls, "deserialize_mapper")
+    body = [n for n in des.body if not (isinstance(n, ast.Expr) and isinstance(n.value, ast.Constant))]
+    if not (len(body) == 2 and isinstance(body[0], ast.If) and not body[0].orelse and isinstance(body[1], ast.Return)
+            and len(body[0].body) == 1 and isinstance(body[0].body[0], ast.Return)):
+        raise Unsupported("deserialize_mapper: expected `if <key> in data: return ...; return ...`")
+    t = body[0].test
+    if not (isinstance(t, ast.Compare) and len(t.ops) == 1 and isinstance(t.ops[0], ast.In)
+            and isinstance(t.comparators[0], ast.Name) and t.comparators[0].id == "data"):
+        raise Unsupported("deserialize_mapper: test is not `<key> in data`")
+    out.append(f"Definition FS_DESER_TEST : list Z := {text(const_str(t.left))}.")
+
+    def ctor_args(ret, what):
+        c = ret.value
+        if not (isinstance(c, ast.Call) and isinstance(c.func, ast.Name) and c.func.id == "FileSystemEntry"):
+            raise Unsupported(f"deserialize_mapper: {what} branch does not return FileSystemEntry(...)")
+
+        def arg(v):
+            if isinstance(v, ast.Subscript) and isinstance(v.value, ast.Name) and v.value.id == "data":
+                return "data:" + const_str(v.slice)
+            if isinstance(v, ast.Constant) and v.value is True:
+                return "True"
+            raise Unsupported(f"deserialize_mapper: argument at line {v.lineno}")
+
+        return [("", arg(a)) for a in c.args] + [(k.arg, arg(k.value)) for k in c.keywords]
+
+    out.append(f"Definition FS_DESER_DIR : list (list Z * list Z) := {kv(ctor_args(body[0].body[0], 'dir'))}.")
+    out.append(f"Definition FS_DESER_FILE : list (list Z * list Z) := {kv(ctor_args(body[1], 'file'))}.")
+
+    # the two sorted(...) calls of load_tree_from_fs.visit
+    load = func_def(fs, "load_tree_from_fs")
+    visit = func_def(load, "visit")
+    calls = [n for n in ast.walk(visit) if isinstance(n, ast.Call) and isinstance(n.func, ast.Name) and n.func.id == "sorted"]
+    rows = []
+    for c in sorted(calls, key=lambda n: n.lineno):
+        if not (len(c.args) == 1 and isinstance(c.args[0], ast.Name) and len(c.keywords) == 1 and c.keywords[0].arg == "key"):
+            raise Unsupported(f"load_tree_from_fs: sorted(...) at line {c.lineno} is not sorted(<list>, key=...)")
+        k = c.keywords[0].value
+        if not (isinstance(k, ast.Call) and isinstance(k.func, ast.Name) and k.func.id in ("attrgetter", "itemgetter")
+                and len(k.args) == 1 and isinstance(k.args[0], ast.Constant) and not k.keywords):
+            raise Unsupported(f"load_tree_from_fs: sort key at line {c.lineno}")
+        rows.append((c.args[0].id, f"{k.func.id}:{k.args[0].value}"))
+    out.append(f"Definition FS_SORT_CALLS : list (list Z * list Z) := {kv(rows)}.")
+    # what is appended to `dirs` (element 0 of the tuple is the sort key)
+    apps = [n for n in ast.walk(visit) if isinstance(n, ast.Call) and isinstance(n.func, ast.Attribute) and n.func.attr == "append"
+            and isinstance(n.func.value, ast.Name) and n.func.value.id == "dirs"]
+    if not (len(apps) == 1 and len(apps[0].args) == 1 and isinstance(apps[0].args[0], ast.Tuple)
+            and all(isinstance(e, ast.Name) for e in apps[0].args[0].elts)):
+        raise Unsupported("load_tree_from_fs: dirs.append((<names>)) not found")
+    out.append("Definition FS_DIRS_TUPLE : list (list Z) := [" + "; ".join(text(e.id) for e in apps[0].args[0].elts) + "].")
+    return out
+
 # ---------------------------------------------------------------------------
 def main():
     common = parse("common.py")
@@ -451,6 +547,9 @@ def main():
         v = class_assign(cls, "DEFAULT_VALUE_MAP")
         if not (isinstance(v, ast.Dict) and not v.keys):
             raise Unsupported(f"{nm} DEFAULT_VALUE_MAP is not an empty dict literal")
+
+    # --- C19: lexical structure of the FileSystemTree mappers and of the two sort calls of load_tree_from_fs
+    lines.extend(fs_facts(fs))
 
     # --- enums
     def enum_members(mod, name):
